@@ -45,7 +45,7 @@ var redirect = map[string]map[string]string{
 		"RFC3339": "", "DateTime": "", "DateOnly": "", "TimeOnly": "",
 	},
 	"sync": {
-		"Mutex": "Mutex", "RWMutex": "RWMutex", "WaitGroup": "WaitGroup", "Map": "Map", "Once": "Once",
+		"Mutex": "Mutex", "RWMutex": "RWMutex", "WaitGroup": "WaitGroup", "Map": "Map", "Once": "Once", "Pool": "Pool",
 	},
 	"syscall": {
 		"SetsockoptInt": "SetsockoptInt",
